@@ -97,6 +97,12 @@ def cbVec16 (s : Bytes) : Out (Option (Bytes × Bytes)) :=
     | none => .ok none
     | some (n, r) => cbRead n r
 
+/-- `cipherLen(aeadID, 0)` (u_ech.go / hpke): the AEAD tag length; **panics** ("hpke: invalid AEAD
+identifier") on anything but AES-128-GCM, AES-256-GCM and ChaCha20-Poly1305. `GREASEEncryptedClientHelloExtension.Write`
+calls it on the AEAD id it has just read from the wire. -/
+def cipherLen (aead : Nat) : Out Nat :=
+  if aead = 1 ∨ aead = 2 ∨ aead = 3 then .ok 16 else .panic
+
 /-! ## The imported spec -/
 
 /-- `UtlsPaddingExtension.GetPaddingLen`. -/
